@@ -4,25 +4,8 @@ open Conv
 open Sysdrv
 
 let vcidr_tbl : (string, vfield) Hashtbl.t = Hashtbl.create 64
-let vsel_tbl : (string, vterm list option) Hashtbl.t = Hashtbl.create 64
-
-let rec nat_of_int i = if i <= 0 then O else S (nat_of_int (i - 1))
-
-let parse_vterms (s : string) : vterm list =
-  List.map (fun t ->
-      if t = "-" then { vt_exprs = []; vt_fields = [] } else
-      let parts = String.split_on_char ';' t in
-      let exprs = List.filter_map (fun p -> match String.split_on_char ',' p with
-          | ["E"; op; n; k] -> Some { vr_op = selop_of_string op; vr_nvals = nat_of_int (int_of_string n); vr_keyok = (k = "1") }
-          | _ -> None) parts in
-      let flds = List.filter_map (fun p -> match String.split_on_char ',' p with
-          | ["F"; op; n; isn; bad] -> Some { vf_op = selop_of_string op; vf_nvals = nat_of_int (int_of_string n);
-                                             vf_keyname = (isn = "1"); vf_badvals = nat_of_int (int_of_string bad) }
-          | _ -> None) parts in
-      { vt_exprs = exprs; vt_fields = flds }) (String.split_on_char '|' s)
-
 let load_pure_oracles (path : string) : unit =
-  Hashtbl.reset vcidr_tbl; Hashtbl.reset vsel_tbl;
+  Hashtbl.reset vcidr_tbl;
   if Sys.file_exists path then begin
     let ic = open_in path in
     (try while true do
@@ -30,9 +13,6 @@ let load_pure_oracles (path : string) : unit =
          | ["vcidr"; tok; "empty"] -> Hashtbl.replace vcidr_tbl tok VEmpty
          | ["vcidr"; tok; "bad"] -> Hashtbl.replace vcidr_tbl tok VBad
          | ["vcidr"; tok; "cidr"; is4; ms] -> Hashtbl.replace vcidr_tbl tok (VCidr (is4 = "1", z_of_int (int_of_string ms)))
-         | ["vsel"; spec; "nil"] -> Hashtbl.replace vsel_tbl spec None
-         | ["vsel"; spec; "terms"] -> Hashtbl.replace vsel_tbl spec (Some [])
-         | ["vsel"; spec; "terms"; ts] -> Hashtbl.replace vsel_tbl spec (Some (parse_vterms ts))
          | _ -> ()
        done with End_of_file -> ());
     close_in ic
@@ -60,12 +40,29 @@ let item_of_fields (f : string list) : item =
       it_v4 = pview_of_tok v4 (int_of_string hb); it_v6 = pview_of_tok v6 (int_of_string hb) }
   | _ -> failwith "bad item"
 
-let vspec_of_fields (f : string list) : vspec =
+(* the selector of a vspec line as the API object carries it (own parser of the case-file mini language); validation's
+   view of it -- key validity, field key, bad values -- is computed by the model (ValidSel.v), not taken from the library *)
+let rawsel_of_spec (s : string) : rawterm list option =
+  if s = "-" then None else if s = "0" then Some [] else
+  Some (List.map (fun t ->
+      let reqs = List.filter (fun r -> r <> "") (String.split_on_char ';' t) in
+      let reqs = if t = "-" then [] else reqs in
+      let mk r =
+        let isf = String.length r > 2 && String.sub r 0 2 = "F." in
+        let r = if isf then String.sub r 2 (String.length r - 2) else r in
+        let (k, op, vs) = match String.split_on_char ':' r with
+          | [k; op; vs] -> (k, op, vs) | [k; op] -> (k, op, "") | [k] -> (k, "", "") | k :: op :: rest -> (k, op, String.concat ":" rest) | [] -> ("", "", "") in
+        let vals = if vs = "" then [] else List.map (fun v -> if v = "EMPTY" then "" else v) (String.split_on_char '+' vs) in
+        (isf, { rr_key = str_of_string k; rr_op = selop_of_string op; rr_vals = List.map str_of_string vals }) in
+      let all = List.map mk reqs in
+      { rt_exprs = List.map snd (List.filter (fun (f, _) -> not f) all); rt_fields = List.map snd (List.filter (fun (f, _) -> f) all) })
+      (String.split_on_char '|' s))
+
+let vspec_errors (f : string list) : int =
   match f with
   | [v4; v6; hb; sel] ->
     let fld t = match Hashtbl.find_opt vcidr_tbl t with Some v -> v | None -> VEmpty in
-    { vs_sel = (match Hashtbl.find_opt vsel_tbl sel with Some v -> v | None -> None);
-      vs_hb = z_of_int (int_of_string hb); vs_v4 = fld v4; vs_v6 = fld v6 }
+    int_of_nat (validate_spec_raw (rawsel_of_spec sel) (z_of_int (int_of_string hb)) (fld v4) (fld v6))
   | _ -> failwith "bad vspec"
 
 let uspec_of_fields (f : string list) : uspec =
@@ -115,7 +112,7 @@ let run (ic : in_channel) (oc : out_channel) : unit =
           | None -> Printf.fprintf oc "mkey err\n"
           | Some (ok, cnt) -> Printf.fprintf oc "mkey %d %s\n" (if ok then 1 else 0) (dec_of_n cnt))
        | "vspec" :: rest when List.length rest = 4 ->
-         Printf.fprintf oc "errs %d\n" (int_of_nat (validate_spec (vspec_of_fields rest)))
+         Printf.fprintf oc "errs %d\n" (vspec_errors rest)
        | "vupd" :: rest when List.length rest = 9 ->
          Printf.fprintf oc "errs %d\n" (int_of_nat (validate_update (uspec_of_fields (take 4 rest)) (uspec_of_fields (drop 5 rest))))
        | _ -> Printf.fprintf oc "badcase\n"
